@@ -1,7 +1,7 @@
 (** Extraction of the executable model (ExtrOcamlBasic only; numbers stay
     extracted inductives). *)
 From Coq Require Import Extraction ExtrOcamlBasic.
-From Oal Require Import Text Position Tag Unify Loader Merge SpecUri Cast Cycles Resolve Lsp Peg Grammar Responses EvalIO Lexer Diag.
+From Oal Require Import Text Position Tag Unify Loader Merge SpecUri Cast Cycles Resolve Lsp Peg Grammar Responses EvalIO Lexer Diag Folder.
 Extraction Language OCaml.
 Separate Extraction
   Text.len8s Text.len16s Text.crlf_wf Text.split_at8 Text.utf16
@@ -19,4 +19,5 @@ Separate Extraction
   Responses.xfer_responses
   EvalIO.run_eval EvalIO.run_eval_lexical EvalIO.run_typing EvalIO.run_strat EvalIO.run_doc EvalIO.run_doc_base EvalIO.run_edges
   Lexer.tokenize Lexer.spans
-  Diag.diagnostics.
+  Diag.diagnostics
+  Folder.f_goto Folder.f_references Folder.f_rename.
